@@ -2,7 +2,10 @@
 from __future__ import annotations
 
 import math
+import types
 import warnings
+from fractions import Fraction as F
+
 import numpy as np
 
 from .. import fake_engine as fe
@@ -15,7 +18,16 @@ RULE = ("oracle histories for the real Engine.price driven by a scripted couplin
         "level 0..5; with control variates: the same random histories on a second scripted process (non-monotone dyadic values) with one or "
         "two scripted controls (square / call / forward of the terminal value, own notional and price) + one-level cases whose control mean "
         "equals its price exactly. Every read point of every history is checked (rows, control rows, adjusted rows, what the criteria "
-        "callbacks received). non-trivial = at least two passes or one level addition; distinct = distinct (configuration, history)")
+        "callbacks received), and at every read point every REPORTED statistic (N_l, ml, vl, mean_level_l, var_level_l, kurtosis, cl, cost, "
+        "price()) is read once, read again twice, and judged against the exact rational textbook statistic of the columns the engine stored "
+        "(c05.stats_from_samples). Fast-decay regime: a third scripted process (small dyadic values; mean / spread of the correction "
+        "multiplied by 2^-r / 2^-q per level with r in 1..5, q in 1..3 chosen against the CONFIGURED alpha / beta so that the engine's floor "
+        "for levels >= 3 exceeds the sample statistic; chosen levels with exactly zero or negative corrections) in complete plans: adaptive "
+        "run from initial level 0..4 to a final L in 3..6 (new levels start with 1, 1, 2, 2, 3, 7 or 0 samples, top-up passes in between, "
+        "return by verdict / at the maximum level / by an empty pass), without and with one or two controls; results also read inside "
+        "the criteria and second compute_mc_paths callbacks; the RETURNED object is kept and re-read (rows and every statistic) later, "
+        "after pricings on other engine objects, and after a second pricing (other process parameters, other history) on the same engine. "
+        "non-trivial = at least two passes or one level addition (plans: final L >= 3); distinct = distinct (configuration, history)")
 NOT_PROVED = ["numpy/scipy moment kernels (np.mean, scipy.stats.moment, np.cov) are compared with the model's exact rational moments, not proved",
               "control variates in the multilevel engine: the bookkeeping theorems (same rows, adjusted row formula, price = sum of adjusted level "
               "means, cv_mean_identity_mlmc) hold for any number of controls and any regression kernel; the kernel itself is the exact "
@@ -24,14 +36,23 @@ NOT_PROVED = ["numpy/scipy moment kernels (np.mean, scipy.stats.moment, np.cov) 
               "the cost of one simulation of a level is a constant of the scripted process (cl = that constant is proved from sum_cost = cost x N_l); "
               "a real coupling process measures it, which is outside the model",
               "regression of alpha, beta, gamma when the rates are not given (np.linalg.lstsq) is not modelled: rates are given in every run",
-              "multi-process callback order is covered by C08; here nb_of_processes=1"]
+              "multi-process callback order is covered by C08; here nb_of_processes=1",
+              "the fast-decay plans (third scripted process) are judged by the oracles only (rows = logged samples, reported statistics = "
+              "textbook statistics of the stored columns, feeds); the Lean driver has no process of that family, so there is no "
+              "correspondence line for them"]
 ASSUMPTIONS = ["the 1% rule is compared away from its float boundary (histories with 100*dN == N are not generated)",
                "adjusted rows / level statistics with control variates are compared at 2^-40 relative to a cancellation-aware scale "
                "(rounding of cov/var amplified by 1/var); raw rows, control rows, N_l and all shapes exactly",
                "levels without samples (N_l = 0, numpy gives nan) are excluded from the comparison of the fed ml/vl/cl and counted",
                "two controls: read points where Sigma_X has an entry within a factor 10 of the 1e-12 guard or is nearly-but-not-exactly singular "
                "are don't-care points of the float guard / pseudo-inverse cut-off (excluded, counted)",
-               "engine reuse: the same Engine object is re-configured through its public configuration attributes between runs"]
+               "engine reuse: the same Engine object is re-configured through its public configuration attributes between runs",
+               "reported statistics oracle: variance = mean of squares minus squared mean (1/n) of the stored corrections (vl, clipped at 0 "
+               "only by rounding) / of the stored fine column (var_level_l); kurtosis = fourth central moment of the stored corrections over "
+               "max(1, variance)^2, the normalisation the library declares; tolerance 2^-40 relative to the level's max(|fine|, |coarse|) "
+               "(squared for variances, fourth power for the kurtosis); N_l exact; a level with N_l = 0 is skipped (nan) and counted",
+               "a results object is judged where the caller can read it: inside the callbacks of the iteration that produced it and, for "
+               "the returned one, at any later time; superseded intermediate results objects are not re-read after their iteration"]
 TRUSTED = ["copy.deepcopy of the coupling process per level; numpy array assignment / np.pad"]
 
 
@@ -101,16 +122,18 @@ def parse_read(block):
                 cl=rdl(t[11]), fm=rdl(t[12]))
 
 
-def oracle_rows(ctx, probe, desc, snap, log_upto, cls):
+def oracle_rows(ctx, probe, desc, snap, log_upto, cls, fine=None, coarse=None):
     """S: the arrays are exactly the simulated samples (independent of M): compare with the process's own log"""
+    fine = fine or fe.fine_value
+    coarse = coarse or fe.coarse_value
     sims = {}
     for kind, l, k in log_upto:
         if kind == "sim":
             sims.setdefault(l, []).append(k)
     for l, arr in enumerate(snap["rows"]):
         ks = sims.get(l, [])
-        exp_f = [fe.DF * fe.fine_value(l, k) for k in ks]
-        exp_c = [0.0 if l == 0 else fe.DF * fe.coarse_value(l, k) for k in ks]
+        exp_f = [fe.DF * fine(l, k) for k in ks]
+        exp_c = [0.0 if l == 0 else fe.DF * coarse(l, k) for k in ks]
         got_f = arr[:, 0, 0].tolist()
         got_c = arr[:, 0, 1].tolist()
         what = None
@@ -128,7 +151,7 @@ def oracle_rows(ctx, probe, desc, snap, log_upto, cls):
     price = 0.0
     for l, ks in sims.items():
         if ks and l < len(snap["rows"]):
-            price += float(np.mean([fe.DF * fe.fine_value(l, k) for k in ks])) - (0.0 if l == 0 else float(np.mean([fe.DF * fe.coarse_value(l, k) for k in ks])))
+            price += float(np.mean([fe.DF * fine(l, k) for k in ks])) - (0.0 if l == 0 else float(np.mean([fe.DF * coarse(l, k) for k in ks])))
     if not math.isclose(price, snap["price"], rel_tol=1e-12, abs_tol=1e-12):
         ctx.fail("oracle", probe, desc, {"what": "price is not the sum of per-level sample means", "price": snap["price"], "expected": price}, cls=cls)
         return False
@@ -163,6 +186,151 @@ def compare_read(ctx, desc, snap, m, cls, where):
         detail["name"] = f"Drivers/C05 price trace vs Engine.price ({where})"
         ctx.fail("corr", "c05.model", desc, detail, cls=cls)
         return False
+    return True
+
+
+# ------------------------------------------------------------------------------------------------ reported statistics
+# S (independent of M): every statistic the results object REPORTS, at every point where it is read, is the textbook statistic
+# of the rows the engine stored (which `oracle_rows` / `oracle_cv` tie to the harness's own log of simulated samples)
+STAT_NAMES = ("Nl", "ml", "vl", "mean_level", "var_level", "kurtosis", "cl", "cost", "price")
+
+
+def read_stats(statistics):
+    """ONE reading of every reported statistic of a (live or kept) MLMCStatistics object; nothing is cached by the harness"""
+    res = statistics.mlmc_results
+    return dict(Nl=[int(x) for x in res.Nl], ml=[float(x) for x in res.ml], vl=[float(x) for x in res.vl],
+                cl=[float(x) for x in res.cl], mean_level=[float(x) for x in res.mean_level_l],
+                var_level=[float(x) for x in res.var_level_l], kurtosis=[float(x) for x in res.kurtosis],
+                cost=float(res.cost), price=float(np.ravel(statistics.price())[0]))
+
+
+def reported_rows(statistics):
+    """the (fine, coarse) columns the results are reported from: the adjusted arrays when control variates are configured, the raw
+    arrays otherwise (MLMCStatistics.simulation_payoff_with_*_process, public)"""
+    n = len(statistics.mc_statistics)
+    return [(np.array(statistics.simulation_payoff_with_fine_process(level=l), dtype=float).copy(),
+             np.array(statistics.simulation_payoff_with_coarse_process(level=l), dtype=float).copy()) for l in range(n)]
+
+
+def _ints(xs):
+    """exact: floats -> (integers, D) with x = i / D"""
+    pairs = [float(x).as_integer_ratio() for x in xs]
+    D = max([d for _, d in pairs] + [1])
+    return [p * (D // d) for p, d in pairs], D
+
+
+def textbook_level(f, c):
+    """exact rational textbook statistics of one level from its stored (fine, coarse) columns: mean / variance (1/n) / fourth central
+    moment of the corrections fine - coarse, mean / variance of the fine column"""
+    n = len(f)
+    fi, Df = _ints(f)
+    ci, Dc = _ints(c)
+    D = max(Df, Dc)
+    fi = [x * (D // Df) for x in fi]
+    di = [a - b * (D // Dc) for a, b in zip(fi, ci)]
+    s1, s2 = sum(di), sum(x * x for x in di)
+    s3, s4 = sum(x * x * x for x in di), sum(x * x * x * x for x in di)
+    m1 = F(s1, n * D)
+    var = F(s2, n * D * D) - m1 * m1
+    mu4 = F(s4, n * D ** 4) - 4 * m1 * F(s3, n * D ** 3) + 6 * m1 * m1 * F(s2, n * D * D) - 3 * m1 ** 4
+    fm = F(sum(fi), n * D)
+    fvar = F(sum(x * x for x in fi), n * D * D) - fm * fm
+    sc = max(float(np.max(np.abs(f))), float(np.max(np.abs(c))), 1e-300)
+    return dict(dp=m1, ml=abs(m1), vl=var, mu4=mu4, kurtosis=mu4 / max(F(1), var) ** 2, mean_level=fm, var_level=fvar, sc=sc,
+                sd=max(float(np.max(np.abs(np.asarray(f) - np.asarray(c)))), 1e-300))
+
+
+def oracle_stats(ctx, desc, reading, rows, nsim, cls, where, cache=None, cost_per_sample=lambda l: float(2 ** l)):
+    """`reading`: one `read_stats`; `rows`: the stored columns it must be the statistics of; `nsim[l]`: number of samples the
+    harness's own log says were simulated at level l.  Tolerance: 2^-40 relative to the level's magnitude (max |fine|, |coarse|; its
+    square for variances; fourth power for the kurtosis), N_l exact."""
+    nl = len(rows)
+
+    def bad(stat, level, got, exp, what=None):
+        ctx.fail("oracle", "c05.stats_from_samples", dict(desc, read=where),
+                 {"what": what or f"reported {stat} of level {level} is not the {stat} of the samples stored for that level",
+                  "statistic": stat, "level": level, "reported": got, "expected": exp, "read": where,
+                  "Nl_reported": reading["Nl"], "samples_simulated": list(nsim)}, cls=cls)
+        return False
+
+    for k in ("Nl", "ml", "vl", "mean_level", "var_level", "kurtosis", "cl"):
+        if len(reading[k]) != nl:
+            return bad(k, None, len(reading[k]), nl, what=f"reported {k} has {len(reading[k])} entries for {nl} levels")
+    if reading["Nl"] != [int(x) for x in nsim[:nl]]:
+        return bad("Nl", None, reading["Nl"], list(nsim[:nl]), what="reported N_l are not the numbers of samples simulated per level")
+    price, price_sc, complete = F(0), 0.0, True
+    for l, (f, c) in enumerate(rows):
+        n = int(nsim[l])
+        if len(f) != n or len(c) != n:
+            return bad("rows", l, len(f), n, what=f"level {l} stores {len(f)} rows for {n} simulated samples")
+        if n == 0:
+            complete = False
+            ctx.branches["c05.stats:level_without_samples_skipped"] += 1
+            continue
+        key = (l, f.tobytes(), c.tobytes())
+        tb = cache.get(key) if cache is not None else None
+        if tb is None:
+            tb = textbook_level(f, c)
+            if cache is not None:
+                cache[key] = tb
+        sc = tb["sc"]
+        for stat, scale in (("ml", sc), ("vl", sc * sc), ("mean_level", sc), ("var_level", sc * sc),
+                            ("kurtosis", max(sc, tb["sd"]) ** 4)):
+            if not close(reading[stat][l], tb[stat], scale=scale):
+                return bad(stat, l, reading[stat][l], float(tb[stat]))
+        if not close(reading["cl"][l], F(cost_per_sample(l))):
+            return bad("cl", l, reading["cl"][l], cost_per_sample(l), what=f"reported cost per sample of level {l} is not cost / N_l")
+        price += tb["dp"]
+        price_sc += sc
+    total = sum(F(cost_per_sample(l)) * int(nsim[l]) for l in range(nl))
+    if not close(reading["cost"], total):
+        return bad("cost", None, reading["cost"], float(total), what="reported total cost is not the sum over levels of N_l x cost per sample")
+    if complete and not close(reading["price"], price, scale=price_sc):
+        return bad("price", None, reading["price"], float(price), what="price() is not the sum over levels of the mean stored correction")
+    ctx.branches["c05.stats:readings_judged"] += 1
+    return True
+
+
+def with_stats(base):
+    """snapshot function = `base` (which reads the results once) + the columns the results are reported from + the results READ
+    AGAIN, twice"""
+    def fn(engine):
+        s = base(engine)
+        st = engine.statistics
+        s["rep_rows"] = reported_rows(st)
+        s["stats"] = [read_stats(st), read_stats(st)]
+        return s
+    return fn
+
+
+SNAP = with_stats(fe.snapshot)
+SNAP_CV = with_stats(fe.snapshot_cv)
+
+
+def _nsim(log_upto, nl):
+    cnt = {}
+    for kind, l, _ in log_upto:
+        if kind == "sim":
+            cnt[l] = cnt.get(l, 0) + 1
+    return [cnt.get(l, 0) for l in range(nl)]
+
+
+def judge_stats(ctx, desc, snap, log_upto, cls, where, cache=None):
+    """the first reading of the results (taken by the base snapshot) and the later readings of the same object, each against the
+    textbook statistics of the stored columns; the public sample accessors return the stored arrays"""
+    cv = "adj" in snap
+    stored = snap["adj"] if cv else snap["rows"]
+    rep = snap["rep_rows"]
+    if len(rep) != len(stored) or any(not (np.array_equal(f, a[:, 0, 0]) and np.array_equal(c, a[:, 0, 1])) for (f, c), a in zip(rep, stored)):
+        ctx.fail("oracle", "c05.stats_from_samples", dict(desc, read=where),
+                 {"what": "simulation_payoff_with_fine_process / _coarse_process do not return the stored sample arrays"}, cls=cls)
+        return False
+    first = {k: snap[k] for k in ("Nl", "ml", "vl", "cl", "mean_level", "var_level", "kurtosis", "cost")}
+    first["price"] = snap["price_cv"] if cv else snap["price"]
+    nsim = _nsim(log_upto, len(rep))
+    for j, reading in enumerate([first] + list(snap["stats"])):
+        if not oracle_stats(ctx, desc, reading, rep, nsim, cls, f"{where}, reading {j + 1}", cache=cache):
+            return False
     return True
 
 
@@ -279,7 +447,7 @@ def one_history(ctx, L0, N0, level_max, hist, tag, rates=(1.0, 2.0, 1.0), engine
         warnings.simplefilter("ignore")
         with np.errstate(all="ignore"):
             try:
-                r = fe.run_mlmc_hooked(hist, L0, N0, level_max, rates=rates, engine=engine)
+                r = fe.run_mlmc_hooked(hist, L0, N0, level_max, rates=rates, engine=engine, snap_fn=SNAP)
             except Exception as e:  # the engine crashed on this history
                 ctx.fail("oracle", "c05.engine_raises", desc, {"what": f"{type(e).__name__}: {e}"}, cls=cls)
                 return None
@@ -295,11 +463,17 @@ def one_history(ctx, L0, N0, level_max, hist, tag, rates=(1.0, 2.0, 1.0), engine
 
 def _judge_history(ctx, desc, cls, r, reads_m, end, hist, L0, N0, level_max, rates):
     # S: at every read point the arrays are exactly the simulated samples so far
+    cache = {}
     for i, snap in enumerate(r["reads"]):
         if not oracle_rows(ctx, "c05.rows_are_samples", dict(desc, read=i), snap, r["log"][:snap["loglen"]], cls):
             return
-    if r["final"] is not None and not oracle_rows(ctx, "c05.rows_are_samples", dict(desc, read="final"), r["final"], r["log"], cls):
-        return
+        if not judge_stats(ctx, desc, snap, r["log"][:snap["loglen"]], cls, f"iteration {i}", cache):
+            return
+    if r["final"] is not None:
+        if not oracle_rows(ctx, "c05.rows_are_samples", dict(desc, read="final"), r["final"], r["log"], cls):
+            return
+        if not judge_stats(ctx, desc, r["final"], r["log"], cls, "returned object", cache):
+            return
     # S: along the run nothing is ever discarded: levels and N_l never decrease and the rows present at one read point are
     # still there, in place, at the next one (theorems run_mono / run_keeps_samples)
     seq = r["reads"] + ([r["final"]] if r["final"] is not None else [])
@@ -405,8 +579,10 @@ def _cv_columns(snap, l, k):
     return Y[:, 0, 0], Y[:, 0, 1], xf, xc
 
 
-def oracle_cv(ctx, desc, snap, log_upto, specs, cls):
+def oracle_cv(ctx, desc, snap, log_upto, specs, cls, fine=None, coarse=None):
     """S (independent of M) for the control-variate path at one read point"""
+    fine = fine or fe.fine_value_v
+    coarse = coarse or fe.coarse_value_v
     sims = {}
     for kind, l, k_ in log_upto:
         if kind == "sim":
@@ -427,14 +603,14 @@ def oracle_cv(ctx, desc, snap, log_upto, specs, cls):
             ctx.fail("oracle", "c05.cv_rows", desc, {"what": what}, cls=cls)
             return False
         yf, yc, xf, xc = _cv_columns(snap, l, k)
-        exp_yf = [fe.DF * fe.fine_value_v(l, i) for i in ks]
-        exp_yc = [0.0 if l == 0 else fe.DF * fe.coarse_value_v(l, i) for i in ks]
+        exp_yf = [fe.DF * fine(l, i) for i in ks]
+        exp_yc = [0.0 if l == 0 else fe.DF * coarse(l, i) for i in ks]
         if yf.tolist() != exp_yf or yc.tolist() != exp_yc:
             ctx.fail("oracle", "c05.rows_are_samples", desc, {"what": f"raw rows of level {l} are not the simulated samples in order"}, cls=cls)
             return False
         for j, (kind, par, notional, _) in enumerate(specs):
-            exp_xf = [fe.DF * notional * fe.control_value(kind, par, fe.fine_value_v(l, i)) for i in ks]
-            exp_xc = [0.0 if l == 0 else fe.DF * notional * fe.control_value(kind, par, fe.coarse_value_v(l, i)) for i in ks]
+            exp_xf = [fe.DF * notional * fe.control_value(kind, par, fine(l, i)) for i in ks]
+            exp_xc = [0.0 if l == 0 else fe.DF * notional * fe.control_value(kind, par, coarse(l, i)) for i in ks]
             if xf[j].tolist() != exp_xf or xc[j].tolist() != exp_xc:
                 ctx.fail("oracle", "c05.cv_rows", desc, {"what": f"control rows of level {l} (control {j}) are not the controls of the simulated samples in order",
                                                         "got": xf[j][:6].tolist(), "expected": exp_xf[:6]}, cls=cls)
@@ -536,16 +712,22 @@ def cv_trace(ctx, L0, N0, level_max, hist, specs, tag="cv", rates=(1.0, 2.0, 1.0
         with np.errstate(all="ignore"):
             try:
                 r = fe.run_mlmc_hooked(hist, L0, N0, level_max, coupling=fe.FakeCouplingV(), control_variates=fe.make_controls(specs),
-                                       snap_fn=fe.snapshot_cv, rates=rates)
+                                       snap_fn=SNAP_CV, rates=rates)
             except Exception as e:
                 ctx.fail("oracle", "c05.engine_raises", desc, {"what": f"{type(e).__name__}: {e}"}, cls=cls)
                 return
     ctx.count("c05.cv_history", desc, nontrivial=len(r["reads"]) >= 1, branch=f"{tag}:k{len(specs)}")
+    cache = {}
     for i, snap in enumerate(r["reads"]):
         if not oracle_cv(ctx, dict(desc, read=i), snap, r["log"][:snap["loglen"]], specs, cls):
             return
-    if r["final"] is not None and not oracle_cv(ctx, dict(desc, read="final"), r["final"], r["log"], specs, cls):
-        return
+        if not judge_stats(ctx, desc, snap, r["log"][:snap["loglen"]], cls, f"iteration {i}", cache):
+            return
+    if r["final"] is not None:
+        if not oracle_cv(ctx, dict(desc, read="final"), r["final"], r["log"], specs, cls):
+            return
+        if not judge_stats(ctx, desc, r["final"], r["log"], cls, "returned object", cache):
+            return
     q = [w(2.0 ** x) for x in rates]
     out = ctx.lean(f"pricecv {L0} {N0} {level_max} {enc_history(hist)} {_ctl_enc(specs)} {q[0]} {q[1]} {q[2]}")
     blocks = out.split(" # ")
@@ -586,6 +768,363 @@ def gen_controls(rng):
     return out
 
 
+# ------------------------------------------------------------------------------------------------ fast-decay regime
+# A third scripted process whose corrections decay by prescribed powers of two per level (so that they can decay much faster than
+# the CONFIGURED rates alpha / beta, be exactly zero on chosen levels, be negative), small values (so that the 2^-40 rule relative to
+# max |fine| resolves corrections of size 2^-25), and complete plans: adaptive run reaching L >= 3 -> returned object read, read again,
+# read after pricing on other engine objects, read after a second pricing on the SAME engine.
+def _t(k):
+    return ((37 * k + 11) % 64) / 16.0              # [0, 4), non-monotone in k
+
+
+def _u(k):
+    return (((29 * k + 5) % 32) - 16) / 16.0        # [-1, 1), non-monotone in k
+
+
+def d_values(ps):
+    """(fine, coarse) value functions of the process `ps` = {a0, r, q, zero: [levels], neg: [levels]}: level 0 fine = a0 t(k)/4;
+    level l >= 1: coarse = c(k) in [0, 2), fine = coarse +- (2^(2 - r l) + 2^(-q l) u(k)), or fine = coarse on the `zero` levels"""
+    zero, neg, a0, r_, q_ = set(ps["zero"]), set(ps["neg"]), float(ps["a0"]), int(ps["r"]), int(ps["q"])
+
+    def coarse(l, k):
+        return ((29 * k + 5) % 64) / 32.0
+
+    def fine(l, k):
+        if l == 0:
+            return a0 * _t(k) / 4.0
+        c = coarse(l, k)
+        if l in zero:
+            return c
+        d = 2.0 ** (2 - r_ * l) + 2.0 ** (-q_ * l) * _u(k)
+        return c - d if l in neg else c + d
+
+    return fine, coarse
+
+
+class FakeCouplingD(fe.FakeCoupling):
+    """fe.FakeCoupling with the values `d_values(ps)`; `ps` is a public attribute (re-assigned between two pricings of one engine)"""
+
+    def __init__(self, ps, log=None):
+        super().__init__(log)
+        self.ps = ps
+
+    def __deepcopy__(self, memo):
+        c = FakeCouplingD(self.ps, self.log)
+        c.level, c.count = self.level, self.count
+        return c
+
+    def _next(self):
+        k = self.count
+        self.count += 1
+        self.log.append(("sim", self.level, k))
+        return k
+
+    def simulate_one_path(self):
+        k = self._next()
+        fine, _ = d_values(self.ps)
+        return fe.StochasticJumpPath(np.array([0.0, fe.T]), np.array([0.0, fine(self.level, k)]), np.zeros(2))
+
+    def simulate_one_path_with_coupling(self):
+        k = self._next()
+        fine, coarse = d_values(self.ps)
+        diff = np.array([[0.0, fine(self.level, k)], [0.0, coarse(self.level, k)]])
+        return fe.StochasticJumpPath(np.array([0.0, fe.T]), diff, np.zeros((2, 2)))
+
+
+def run_plan(run, ps, specs, engine=None):
+    """`fe.run_mlmc_hooked` for the process `ps` (fresh engine, or an existing `engine` re-configured through its public configuration
+    attributes) that additionally reads the results inside EVERY callback of an iteration (first compute_mc_paths: full snapshot;
+    criteria and second compute_mc_paths: the reported statistics and the columns they are reported from)"""
+    from rpylib.montecarlo.configuration import ConfigurationMultiLevel, ConvergenceRates
+    from rpylib.montecarlo.multilevel.criteria import ConvergenceCriteria
+    from rpylib.montecarlo.multilevel.engine import Engine as MLMCEngine
+    from rpylib.product.product import NoControlVariates
+    history, rates = [tuple(h) for h in run["history"]], run["rates"]
+    snap_fn = SNAP_CV if specs else SNAP
+    reads, calls = [], []
+    st = {"i": 0, "state": "idle"}
+    holder = {}
+
+    def fit(ns, n):
+        ns = list(ns) + [0] * max(0, n - len(ns))
+        return np.array(ns[:n], dtype=int)
+
+    def light(at):
+        s = holder["engine"].statistics
+        reads[-1].setdefault("later", []).append(dict(at=at, rep_rows=reported_rows(s), stats=[read_stats(s)], loglen=len(holder["log"])))
+
+    def compute_mc_paths(rmse, vl, cl):
+        if st["state"] == "crit_done":
+            calls.append(("mc_paths2", [float(x) for x in vl], [float(x) for x in cl]))
+            light("second compute_mc_paths")
+            ns = history[st["i"]][2]
+            st["i"] += 1
+            st["state"] = "idle"
+            return fit(ns, len(vl))
+        if st["state"] == "first_done":
+            st["i"] += 1
+        if st["i"] >= len(history):
+            raise fe.Exhausted()
+        calls.append(("mc_paths", [float(x) for x in vl], [float(x) for x in cl]))
+        snap = snap_fn(holder["engine"])
+        snap["loglen"] = len(holder["log"])
+        reads.append(snap)
+        st["state"] = "first_done"
+        return fit(history[st["i"]][0], len(vl))
+
+    def criteria(alpha, ml, rmse):
+        calls.append(("criteria", float(alpha), [float(x) for x in ml]))
+        light("criteria")
+        st["state"] = "crit_done"
+        return bool(history[st["i"]][1])
+
+    cr = ConvergenceRates(alpha=rates[0], beta=rates[1], gamma=rates[2])
+    cc = ConvergenceCriteria(criteria=criteria, compute_mc_paths=compute_mc_paths)
+    controls = fe.make_controls(specs) if specs else None
+    if engine is not None:
+        eng, cfg = engine, engine.configuration
+        log = eng.coupling_process.log
+        del log[:]
+        eng.coupling_process.ps = ps
+        cfg.convergence_rates, cfg.convergence_criteria = cr, cc
+        cfg.initial_level, cfg.maximum_level, cfg.initial_mc_paths = run["L0"], run["level_max"], run["N0"]
+        cfg.control_variates = controls or NoControlVariates()
+    else:
+        log = []
+        cfg = ConfigurationMultiLevel(convergence_rates=cr, convergence_criteria=cc, initial_level=run["L0"], maximum_level=run["level_max"],
+                                      initial_mc_paths=run["N0"], seed=None, nb_of_processes=1, control_variates=controls)
+        eng = MLMCEngine(configuration=cfg, coupling_process=FakeCouplingD(ps, log))
+    holder["engine"], holder["log"] = eng, log
+    outcome = "ret"
+    try:
+        eng.price(fe.identity_product(), rmse=0.01)
+    except fe.Exhausted:
+        outcome = "cont"
+    final = snap_fn(eng) if outcome == "ret" else None
+    return dict(outcome=outcome, reads=reads, final=final, log=log, engine=eng, calls=calls)
+
+
+def _tb(cache, l, f, c):
+    key = (l, f.tobytes(), c.tobytes())
+    if key not in cache:
+        cache[key] = textbook_level(f, c)
+    return cache[key]
+
+
+def oracle_feeds_rows(ctx, desc, r, rates, cls, cache):
+    """S (independent of M), with and without control variates: what the callbacks received at every iteration are the statistics of
+    the columns stored at that moment (after the engine's declared floor for levels >= 3), cl = cost per sample, and the second
+    compute_mc_paths call gets them extended by the declared rates"""
+    qa, qb, qg = (2.0 ** x for x in rates)
+    its = group_calls(r["calls"])
+    if len(its) != len(r["reads"]):
+        ctx.fail("oracle", "c05.feeds_from_samples", desc, {"what": "callback protocol", "iterations": len(its), "reads": len(r["reads"])}, cls=cls)
+        return False
+    for i, (it, snap) in enumerate(zip(its, r["reads"])):
+        rows = snap["rep_rows"]
+        if len(rows) != len(it["vl"]) or any(len(f) == 0 for f, _ in rows):
+            ctx.branches["c05.feeds:level_without_samples_skipped"] += 1
+            continue
+        tbs = [_tb(cache, l, f, c) for l, (f, c) in enumerate(rows)]
+        sc = max(t["sc"] for t in tbs)
+        ml = _workaround([float(t["ml"]) for t in tbs], qa)
+        vl = _workaround([max(0.0, float(t["vl"])) for t in tbs], qb)
+        cl = [float(2 ** l) for l in range(len(rows))]
+        tol1, tol2 = sc * 2.0 ** -40, sc * sc * 2.0 ** -40
+        bad = None
+        if not np.allclose(it["vl"], vl, rtol=0, atol=tol2) or not np.allclose(it["cl"], cl, rtol=1e-12, atol=0):
+            bad = {"what": "vl / cl handed to compute_mc_paths are not those of the samples stored so far", "got": [it["vl"], it["cl"]], "expected": [vl, cl]}
+        elif "ml" in it and not np.allclose(it["ml"], ml, rtol=0, atol=tol1):
+            bad = {"what": "ml handed to the bias test is not that of the samples stored so far", "got": it["ml"], "expected": ml}
+        elif "vl2" in it and (not np.allclose(it["vl2"], vl + [vl[-1] / qb], rtol=0, atol=tol2)
+                              or not np.allclose(it["cl2"], cl + [cl[-1] * qg], rtol=1e-12, atol=0)):
+            bad = {"what": "extrapolated vl / cl of the second compute_mc_paths call", "got": [it["vl2"], it["cl2"]]}
+        if bad:
+            bad["iteration"] = i
+            ctx.fail("oracle", "c05.feeds_from_samples", desc, bad, cls=cls)
+            return False
+    return True
+
+
+def _judge_plan_run(ctx, desc, cls, r, specs, ps, rates, cache, label):
+    """every read point of one run of a plan: rows = the logged samples (S), every reported statistic = textbook statistic of the
+    stored columns at the first reading, at the repeated readings and inside the later callbacks of the same iteration"""
+    fine, coarse = d_values(ps)
+
+    def rows_ok(snap, log_upto, where):
+        if specs:
+            return oracle_cv(ctx, dict(desc, read=where), snap, log_upto, specs, cls, fine=fine, coarse=coarse)
+        return oracle_rows(ctx, "c05.rows_are_samples", dict(desc, read=where), snap, log_upto, cls, fine=fine, coarse=coarse)
+
+    for i, snap in enumerate(r["reads"]):
+        where = f"{label}, iteration {i}"
+        log_upto = r["log"][:snap["loglen"]]
+        if not rows_ok(snap, log_upto, where) or not judge_stats(ctx, desc, snap, log_upto, cls, where, cache):
+            return False
+        for lt in snap.get("later", []):
+            if lt["loglen"] != snap["loglen"] or len(lt["rep_rows"]) != len(snap["rep_rows"]) or any(
+                    not (np.array_equal(a, c) and np.array_equal(b, d)) for (a, b), (c, d) in zip(lt["rep_rows"], snap["rep_rows"])):
+                ctx.fail("oracle", "c05.samples_kept", dict(desc, read=where),
+                         {"what": f"the stored samples changed between the callbacks of one iteration ({lt['at']}) although nothing was simulated"}, cls=cls)
+                return False
+            if not oracle_stats(ctx, desc, lt["stats"][0], lt["rep_rows"], _nsim(log_upto, len(lt["rep_rows"])), cls,
+                                f"{where}, inside {lt['at']}", cache=cache):
+                return False
+    if r["final"] is not None:
+        where = f"{label}, returned object"
+        if not rows_ok(r["final"], r["log"], where) or not judge_stats(ctx, desc, r["final"], r["log"], cls, where, cache):
+            return False
+    return oracle_feeds_rows(ctx, desc, r, rates, cls, cache)
+
+
+def _floor_bites(snap, rates, cache):
+    """(ml, vl): does the engine's floor for levels >= 3 exceed the sample statistic of some level at this read point?"""
+    rows = snap["rep_rows"]
+    if len(rows) < 4 or any(len(f) == 0 for f, _ in rows):
+        return False, False
+    tbs = [_tb(cache, l, f, c) for l, (f, c) in enumerate(rows)]
+    ml, vl = [float(t["ml"]) for t in tbs], [max(0.0, float(t["vl"])) for t in tbs]
+    return _workaround(ml, 2.0 ** rates[0]) != ml, _workaround(vl, 2.0 ** rates[1]) != vl
+
+
+def stats_case(ctx, plan):
+    """one complete plan (JSON): {plan: "stats", process, control_variates, first: run, other: bool, second: {process, run} | None}
+    with run = {L0, N0, level_max, rates, history}"""
+    plan = {k: v for k, v in plan.items() if k != "read"}
+    ps, first = plan["process"], plan["first"]
+    specs = [tuple(x) for x in (plan.get("control_variates") or [])]
+    cls = dict(kind="fast_decay", control_variates=bool(specs))
+    cache = {}
+
+    def guarded(fn, *a, **k):
+        with warnings.catch_warnings():
+            warnings.simplefilter("ignore")
+            with np.errstate(all="ignore"):
+                try:
+                    return fn(*a, **k)
+                except Exception as e:
+                    ctx.fail("oracle", "c05.engine_raises", plan, {"what": f"{type(e).__name__}: {e}"}, cls=cls)
+                    return None
+
+    r = guarded(run_plan, first, ps, specs)
+    if r is None:
+        return
+    last = r["final"] or (r["reads"][-1] if r["reads"] else None)
+    nl = len(last["Nl"]) if last else 0
+    bm, bv = _floor_bites(last, first["rates"], cache) if last else (False, False)
+    ctx.count("c05.stats_history", plan, nontrivial=nl >= 4, branch=f"fast_decay:{'cv' if specs else 'raw'}:{r['outcome']}:L{nl - 1}")
+    if bm:
+        ctx.branches["c05.stats:floor_above_sample_ml_at_last_read"] += 1
+    if bv:
+        ctx.branches["c05.stats:floor_above_sample_vl_at_last_read"] += 1
+    if last and nl >= 4 and any(n in (1, 2) for n in last["Nl"][3:]):
+        ctx.branches["c05.stats:level_ge3_with_1_or_2_samples"] += 1
+    if last and any(l < nl and last["Nl"][l] > 0 for l in ps["zero"]):
+        ctx.branches["c05.stats:level_with_exactly_zero_corrections"] += 1
+    if not _judge_plan_run(ctx, plan, cls, r, specs, ps, first["rates"], cache, "first pricing"):
+        return
+    if r["final"] is None:
+        return
+    # the RETURNED object is kept by the caller and read again later
+    eng, kept, log1 = r["engine"], r["engine"].statistics, list(r["log"])
+    fine, coarse = d_values(ps)
+
+    def reread(where):
+        with warnings.catch_warnings():
+            warnings.simplefilter("ignore")
+            with np.errstate(all="ignore"):
+                snap = (SNAP_CV if specs else SNAP)(types.SimpleNamespace(statistics=kept))
+        if specs:
+            ok = oracle_cv(ctx, dict(plan, read=where), snap, log1, specs, cls, fine=fine, coarse=coarse)
+        else:
+            ok = oracle_rows(ctx, "c05.rows_are_samples", dict(plan, read=where), snap, log1, cls, fine=fine, coarse=coarse)
+        if ok and len(snap["rows"]) == len(r["final"]["rows"]) and not all(np.array_equal(a, b) for a, b in zip(snap["rows"], r["final"]["rows"])):
+            ctx.fail("oracle", "c05.samples_kept", dict(plan, read=where), {"what": "the samples of the returned object changed after the return"}, cls=cls)
+            return False
+        return ok and judge_stats(ctx, plan, snap, log1, cls, where, cache)
+
+    if not reread("returned object of the first pricing, read again later"):
+        return
+    ctx.branches["c05.stats:returned_object_reread"] += 1
+    if plan.get("other"):
+        ok = guarded(lambda: (fe.run_mlmc_fixed(2, 3), run_plan(dict(first, L0=min(first["L0"], 3), N0=2, level_max=max(3, min(first["L0"], 3))),
+                                                                dict(ps, r=1, q=1, zero=[], neg=[3]), specs)))
+        if ok is None or not reread("returned object of the first pricing, after pricings on other engine objects"):
+            return
+        ctx.branches["c05.stats:returned_object_reread_after_other_engines"] += 1
+    sec = plan.get("second")
+    if sec:
+        r2 = guarded(run_plan, sec["run"], sec["process"], specs, engine=eng)
+        if r2 is None:
+            return
+        if not _judge_plan_run(ctx, plan, dict(cls, engine_reused=True), r2, specs, sec["process"], sec["run"]["rates"], {}, "second pricing on the same engine"):
+            return
+        if not reread("returned object of the first pricing, after a second pricing on the same engine"):
+            return
+        ctx.branches["c05.stats:returned_object_reread_after_second_pricing"] += 1
+
+
+def gen_deep_history(rng, L0, N0, level_max, target):
+    """script that makes the adaptive loop add levels until `target` (new levels start with 1, 1, 2, 2, 3 or 7 samples), with
+    top-up passes in between, and then return"""
+    hist, cur = [], [N0] * (L0 + 1)
+    for _ in range(14):
+        if len(cur) - 1 >= target:
+            break
+        if rng.random() < 0.35:                                   # top-up pass
+            ns = _off_boundary([c + rng.choice([0, 1, 2, 5, c + 1]) for c in cur], cur)
+            new = [max(a, b) for a, b in zip(ns, cur)]
+            dn = rng.choice([1, 2, 3])
+            hist.append((ns, False, new + [dn]))
+            big = any(100 * (a - b) > b for a, b in zip(ns, cur) if a > b)
+            cur = new if big else new + [dn]                      # within the 1 % rule the bias test runs and a level is added
+            continue
+        dn = rng.choice([1, 1, 2, 2, 3, 7])
+        if len(cur) - 1 == target - 1 and rng.random() < 0.06:
+            dn = 0                                                # a level that never gets a sample: the loop ends
+        hist.append((list(cur), False, list(cur) + [dn]))
+        cur = cur + [dn]
+    if rng.random() < 0.4:
+        ns = _off_boundary([c + rng.choice([0, 0, 1, 3]) for c in cur], cur)
+        hist.append((ns, True, [max(a, b) for a, b in zip(ns, cur)] + [1]))
+    # closing oracle: nothing to add; at the maximum level the run returns whatever the verdict
+    hist.append(([0] * 12, not (len(cur) - 1 == level_max and rng.random() < 0.5), [0] * 12))
+    return [[list(a), bool(b), list(c)] for a, b, c in hist]
+
+
+def gen_process(rng, rates, fast=True):
+    a, b, _ = rates
+    if fast:      # the floor ratio of the engine is 2^-(alpha+1) for means and 2^-(beta+1) for variances
+        r_, q_ = min(5, int(a) + rng.choice([2, 3])), rng.choice([2, 3, 3]) if b < 3 else 3
+    else:
+        r_, q_ = 1, 1
+    zero = sorted(rng.sample([2, 3, 4, 5, 6], rng.choice([0, 0, 1, 1, 2])))
+    neg = sorted(rng.sample([1, 2, 3, 4, 5, 6], rng.choice([0, 1, 2])))
+    return dict(a0=rng.choice([4.0, 16.0]), r=r_, q=q_, zero=zero, neg=neg)
+
+
+def gen_run(rng, deep=True):
+    rates = list(rng.choice(RATES))
+    level_max = rng.randint(3, 6)
+    L0 = rng.randint(0, min(4, level_max))
+    N0 = rng.choice([2, 3, 5, 10, 20, 40])
+    if deep:
+        hist = gen_deep_history(rng, L0, N0, level_max, rng.randint(max(3, L0), level_max))
+    else:
+        hist = [[list(a), bool(b), list(c)] for a, b, c in gen_history(rng, L0, N0, level_max)]
+    return dict(L0=L0, N0=N0, level_max=level_max, rates=rates, history=hist)
+
+
+def gen_stats_plan(rng, cv):
+    first = gen_run(rng)
+    plan = dict(plan="stats", process=gen_process(rng, first["rates"], fast=rng.random() < 0.85),
+                control_variates=[list(x) for x in gen_controls(rng)] if cv else [], first=first, other=rng.random() < 0.5, second=None)
+    if rng.random() < 0.6:
+        run2 = gen_run(rng, deep=rng.random() < 0.7)
+        plan["second"] = dict(process=gen_process(rng, run2["rates"], fast=rng.random() < 0.7), run=run2)
+    return plan
+
+
 def fixed_on(ctx, eng, max_level, mc, prefix):
     """price_with_constant_mc_paths_and_level on an engine object that has priced before"""
     desc = dict(fixed=True, max_level=max_level, mc=mc, reuse_prefix=prefix)
@@ -602,9 +1141,9 @@ def fixed_on(ctx, eng, max_level, mc, prefix):
             except Exception as e:
                 ctx.fail("oracle", "c05.engine_raises", desc, {"what": f"{type(e).__name__}: {e}"}, cls=cls)
                 return
-    snap = fe.snapshot(eng)
+    snap = SNAP(eng)
     ctx.count("c05.fixed", desc, nontrivial=max_level >= 1, branch="engine_reuse")
-    if oracle_rows(ctx, "c05.rows_are_samples", desc, snap, list(log), cls):
+    if oracle_rows(ctx, "c05.rows_are_samples", desc, snap, list(log), cls) and judge_stats(ctx, desc, snap, list(log), cls, "returned object"):
         compare_read(ctx, desc, snap, parse_read(ctx.lean(f"fixed {max_level} {mc}")), cls, "fixed after price on the same engine")
 
 
@@ -640,6 +1179,11 @@ def run(ctx):
         L0 = rng.randint(0, min(2, level_max))
         N0 = rng.choice([3, 5, 10, 20])
         cv_trace(ctx, L0, N0, level_max, gen_history(rng, L0, N0, level_max), gen_controls(rng), rates=rng.choice(RATES))
+    # fast-decay regime: complete plans (adaptive run to L >= 3, returned object kept and re-read), without / with control variates
+    for _ in range(ctx.n(36, 400)):
+        stats_case(ctx, gen_stats_plan(rng, cv=False))
+    for _ in range(ctx.n(20, 200)):
+        stats_case(ctx, gen_stats_plan(rng, cv=True))
     # directed: one level, the control's sample mean equals its price exactly -> the adjusted price must equal the raw one
     for N0, kind, par in ((4, "sq", 0.0), (8, "call", 1.0), (16, "sq", 0.0)):
         xs = [fe.DF * 2.0 * fe.control_value(kind, par, fe.fine_value_v(0, k)) for k in range(N0)]
@@ -676,13 +1220,18 @@ def run(ctx):
             desc = dict(fixed=True, max_level=max_level, mc=mc)
             r = fe.run_mlmc_fixed(max_level, mc)
             ctx.count("c05.fixed", desc, nontrivial=max_level >= 1)
-            if oracle_rows(ctx, "c05.rows_are_samples", desc, r["final"], r["log"], dict(kind="fixed")):
+            r["final"] = SNAP(r["engine"])
+            if (oracle_rows(ctx, "c05.rows_are_samples", desc, r["final"], r["log"], dict(kind="fixed"))
+                    and judge_stats(ctx, desc, r["final"], r["log"], dict(kind="fixed"), "returned object")):
                 m = parse_read(ctx.lean(f"fixed {max_level} {mc}"))
                 compare_read(ctx, desc, r["final"], m, dict(kind="fixed"), "fixed")
 
 
 def replay(ctx, rec):
     d = rec["input"]
+    if d.get("plan") == "stats":
+        stats_case(ctx, d)
+        return
     if "reuse_prefix" in d:
         eng = None
         for L0, N0, lm, h in d["reuse_prefix"]:
@@ -698,7 +1247,9 @@ def replay(ctx, rec):
         return
     if d.get("fixed"):
         r = fe.run_mlmc_fixed(d["max_level"], d["mc"])
-        oracle_rows(ctx, "c05.rows_are_samples", d, r["final"], r["log"], dict(kind="fixed"))
+        r["final"] = SNAP(r["engine"])
+        if oracle_rows(ctx, "c05.rows_are_samples", d, r["final"], r["log"], dict(kind="fixed")):
+            judge_stats(ctx, d, r["final"], r["log"], dict(kind="fixed"), "returned object")
         return
     hist = [(a, b, c) for a, b, c in d["history"]]
     rates = tuple(d.get("rates", (1.0, 2.0, 1.0)))
